@@ -70,6 +70,13 @@ NextTxnCore ==
     \/ ~txn.open /\ (TxnBegin \/ (\E s \in SubIds : Poll(s, 0)))
 SpecTxnCore == PInit /\ [][NextTxnCore]_vars
 
+(* lag and end of stream: a few message-producing calls, a transaction, the drop, polls with every budget *)
+LagOp == PushBack("v", fresh) \/ PopFront("v") \/ SetAt("v", 0, fresh, "Set")
+NextLag ==
+    \/ txn.open /\ (PushBack("t", fresh) \/ PopFront("t") \/ TxnCommit)
+    \/ ~txn.open /\ (LagOp \/ TxnBegin \/ DropVector \/ (\E s \in SubIds, k \in {0, 1} : Poll(s, k)))
+SpecLag == PInit /\ [][NextLag]_vars
+
 (* streams from a pre-populated vector: every mutator, lag, drop *)
 SpecStreamsPre == PInit /\ [][NextStreams]_vars
 
